@@ -403,7 +403,7 @@ func drawCase(rt *rapid.T) Case {
 
 func TestC06_Time(t *testing.T) {
 	rec := stats.New(t, "C06", rule)
-	rp.Check(t, 8000, 150000, func(rt *rapid.T) {
+	rp.Check(t, 8000, 1500000, func(rt *rapid.T) {
 		c := drawCase(rt)
 		key, msg, want := check(c)
 		rec.Case(classes(c, want), nontrivial(c), stats.Fingerprint(fmt.Sprintf("%+v", c)), func() any { return c })
